@@ -289,6 +289,70 @@ type Resp0001 struct {
 		{Path: []string{"definitions", "body0001", "properties", "id", "minimum"}, Want: 1.0, What: "model property minimum"},
 		{Path: []string{"definitions", "body0001", "properties", "name", "maxLength"}, Want: 12.0, What: "model property maxLength"},
 	}})
+	// a response whose body comes first and whose headers rely on the default location; slice header
+	out = append(out, c17Program{Name: "response: body first, headers without in:", Class: "response-body-first", Pkg: "f0011", Source: `package f0011
+
+// Item0011 is a model.
+//
+// swagger:model item0011
+type Item0011 struct {
+	ID int64 ` + "`json:\"id\"`" + `
+}
+
+// Resp0011 is a response.
+//
+// swagger:response resp0011
+type Resp0011 struct {
+	// in: body
+	Payload *Item0011 ` + "`json:\"payload\"`" + `
+	// The total.
+	//
+	// maximum: 50
+	XTotal int64 ` + "`json:\"X-Total\"`" + `
+	// Tags.
+	XTags []string ` + "`json:\"X-Tags\"`" + `
+}
+`, Facts: []fact{
+		{Path: []string{"responses", "resp0011", "schema", "$ref"}, Want: "#/definitions/item0011", What: "response body ref (body first)"},
+		{Path: []string{"responses", "resp0011", "headers", "X-Total", "type"}, Want: "integer", What: "header after the body: type"},
+		{Path: []string{"responses", "resp0011", "headers", "X-Total", "maximum"}, Want: 50.0, What: "header after the body: maximum"},
+		{Path: []string{"responses", "resp0011", "headers", "X-Tags", "type"}, Want: "array", What: "slice header after the body: type"},
+		{Path: []string{"responses", "resp0011", "headers", "X-Tags", "items", "type"}, Want: "string", What: "slice header after the body: items"},
+		{Path: []string{"responses", "resp0011", "schema", "type"}, Want: nil, What: "response body schema stays a bare $ref"},
+	}})
+	// a response and a model sharing one name, both used in a route's Responses section
+	out = append(out, c17Program{Name: "response and model with the same name", Class: "response-model-same-name", Pkg: "f0012", Source: `package f0012
+
+// Pet0012 is a model.
+//
+// swagger:model pet0012
+type Pet0012 struct {
+	Name string ` + "`json:\"name\"`" + `
+}
+
+// PetResp0012 is a response that carries the model of the same name.
+//
+// swagger:response pet0012
+type PetResp0012 struct {
+	// in: body
+	Body *Pet0012
+}
+
+// swagger:route GET /f0012/pets pets listPets0012
+//
+// Lists.
+//
+// Responses:
+//   200: pet0012
+//   404: response:pet0012
+//   422: body:pet0012
+func Handler() {}
+`, Facts: []fact{
+		{Path: []string{"paths", "/f0012/pets", "get", "responses", "200", "$ref"}, Want: "#/responses/pet0012", What: "200: <name> resolves to the response of that name"},
+		{Path: []string{"paths", "/f0012/pets", "get", "responses", "404", "$ref"}, Want: "#/responses/pet0012", What: "404: response:<name>"},
+		{Path: []string{"paths", "/f0012/pets", "get", "responses", "422", "schema", "$ref"}, Want: "#/definitions/pet0012", What: "422: body:<name> is the model"},
+		{Path: []string{"responses", "pet0012", "schema", "$ref"}, Want: "#/definitions/pet0012", What: "response body ref"},
+	}})
 	// swagger:operation with YAML
 	out = append(out, c17Program{Name: "operation with YAML body", Class: "operation-yaml", Pkg: "f0002", Source: `package f0002
 
